@@ -17,6 +17,7 @@ from vtlengine.AST.DAG._models import DatasetSchedule
 from vtlengine.DataTypes import (
     _DUCKDB_TYPE_TO_VTL,
     Duration,
+    Integer,
     Null,
     TimeInterval,
     TimePeriod,
@@ -282,6 +283,14 @@ def _build_dataset_fetch_select(
                 exprs.append(f'strftime(\'%Y-%m-%d\', "{col}") AS "{col}"')
         elif col_type == "DATE":
             exprs.append(f'strftime(\'%Y-%m-%d\', "{col}") AS "{col}"')
+        elif (
+            col in ds.components
+            and ds.components[col].data_type is Integer
+            and (col_type in ("DOUBLE", "FLOAT") or col_type.startswith("DECIMAL"))
+        ):
+            # ceil / floor / round / trunc … compute on DOUBLE: an Integer component must not
+            # come back as 3.0
+            exprs.append(f'CAST("{col}" AS BIGINT) AS "{col}"')
         else:
             exprs.append(f'"{col}"')
 
